@@ -376,8 +376,14 @@ package lfs
 //@   props C05
 //@   at call lfs.parseScannerLogOutput:1 assert arg3__ == nil && arg1__ == LogDiffAdditions && arg0__ == cb
 //@   at call git.Log:1 assert len(arg0__) >= 4 && arg0__[0] == "--branches" && arg0__[1] == "--tags" && arg0__[2] == "--not" && (len(remote) == 0 ==> arg0__[3] == "--remotes")
+// Each stash entry is looked at as the range "<sha>^..<sha>": everything
+// reachable from the stash's merge commit but not from its FIRST parent - so
+// the index commit and the untracked-files commit (its other parents) are
+// walked too ("<sha>^!" would exclude them, and their objects would be pruned).
 //@ func scanStashed
 //@   props C05
+//@   at call git.Log:1 assert len(arg0__) == 4 && arg0__[0] == "-g" && arg0__[1] == "--format=%h" && arg0__[2] == "refs/stash" && arg0__[3] == "--"
+//@   loop 1 iter len(stashMergeShas) == iter(len(stashMergeShas)) + 1 && stashMergeShas[iter(len(stashMergeShas))] == scat(scat(stashMergeSha, "^.."), stashMergeSha)
 //@   at call lfs.parseScannerLogOutput:1 assert arg3__ == nil && arg1__ == LogDiffAdditions && arg0__ == cb
 //@ func (*GitScanner).ScanUnpushed
 //@   props C05
@@ -473,12 +479,23 @@ package lfs
 //@   ensures result1 == nil ==> result0 != nil
 //@ func (*PointerScanner).Scan
 //@   assumed
-//@   props C13
+//@   props C13 C04
 //@   modifies fresh, fields s
+//@   monitor lastscanoid[0] := sha
 //@ func (*PointerScanner).Pointer
 //@   assumed
-//@   props C13
+//@   props C13 C04
 //@   noeffect
+//@   monitor lastscanptr[0] := result
+
+// C04: every entry of the tree gets a pointer of its own: what is sent for a
+// tree entry is the pointer the scanner has just read for that entry's blob,
+// named after that entry (a pointer handed out earlier is never reused for
+// another path - its name would change under the reader's hands).
+//@ func catFileBatchTree$1
+//@   props C04
+//@   at call (*lfs.PointerScanner).Scan:* assert @C04 arg1__ == t.Oid
+//@   at send pointers assert @C04 mapval__ == lastscanptr(0) && lastscanoid(0) == t.Oid && mapval__.Name == t.Filename
 //@ func (*PointerScanner).Err
 //@   assumed
 //@   props C13
